@@ -430,6 +430,9 @@ type vfC22Client struct {
 	// epochMixed: while the request that went live was in flight (parked inside the transition), deliveries of another
 	// epoch than the reply's were broadcast (clear / metadata expiry followed by publishes inside the window).
 	epochMixed bool
+	noProgress int
+	livelock   string
+	lastTold   string
 	viol       string
 	trace         []string
 	isKnown       func(string) bool
@@ -554,7 +557,7 @@ func (c *vfC22Client) release() {
 func (c *vfC22Client) step(gate string) {
 	c.release()
 	c.pump()
-	if c.gaveUp || c.stuck || c.viol != "" {
+	if c.gaveUp || c.stuck || c.viol != "" || c.livelock != "" {
 		return
 	}
 	if c.conn == nil || c.connDead {
@@ -637,6 +640,17 @@ func (c *vfC22Client) handleResult(p *vfC22Req, res *protocol.SubscribeResult) {
 		}
 	case MapPhaseStream:
 		c.tr("<- #%d stream page %s offset=%d epoch=%s", p.id, vfC22RenderPubs(res.Publications), res.Offset, res.Epoch)
+		if p.req.Phase == MapPhaseStream && len(res.Publications) == 0 && res.Offset == p.req.Offset {
+			// Nothing delivered and the offset to continue from did not move: the client has to send the same request
+			// again. (A page emptied by the tags filters still moves the offset.)
+			c.noProgress++
+			if c.noProgress >= 3 {
+				c.livelock = fmt.Sprintf("stream pagination makes no progress: %d consecutive stream-phase replies with no publications and unchanged offset %d (epoch %s); the client can only repeat the request (until the catch-up timeout disconnects it, after which a rejoin from the same position loops again) and is never told that its position is unrecoverable",
+					c.noProgress, res.Offset, res.Epoch)
+			}
+		} else {
+			c.noProgress = 0
+		}
 		for _, e := range res.Publications {
 			c.apply(e)
 		}
@@ -694,13 +708,29 @@ func (c *vfC22Client) handleResult(p *vfC22Req, res *protocol.SubscribeResult) {
 // checkRecovered: a rejoin answered recovered=true must have delivered exactly the admitted changes after the saved
 // position up to the reply offset.
 func (c *vfC22Client) checkRecovered(res *protocol.SubscribeResult) {
-	if res.Epoch != c.recEpoch {
-		c.violate("recovered=true although the reply epoch %q differs from the saved epoch %q", res.Epoch, c.recEpoch)
+	msg := c.recoveredMismatch(res)
+	if msg == "" {
 		return
 	}
+	z, e := c.mb.gapFlags()
+	if key := vfC22GapKey(z, e, c.epochMixed); key != "" {
+		if c.isKnown(key) {
+			c.out.known = append(c.out.known, key)
+			c.out.knownEx = msg
+			c.out.label("known:" + key)
+			return
+		}
+		msg = "[" + key + "] " + msg
+	}
+	c.violate("%s", msg)
+}
+
+func (c *vfC22Client) recoveredMismatch(res *protocol.SubscribeResult) string {
+	if res.Epoch != c.recEpoch {
+		return fmt.Sprintf("recovered=true although the reply epoch %q differs from the saved epoch %q", res.Epoch, c.recEpoch)
+	}
 	if res.Offset < c.recSince {
-		c.violate("recovered=true with reply offset %d below the saved offset %d", res.Offset, c.recSince)
-		return
+		return fmt.Sprintf("recovered=true with reply offset %d below the saved offset %d", res.Offset, c.recSince)
 	}
 	byOff := map[uint64]vfC22Change{}
 	for _, ch := range c.mb.logCopy() {
@@ -712,8 +742,8 @@ func (c *vfC22Client) checkRecovered(res *protocol.SubscribeResult) {
 	for o := c.recSince + 1; o <= res.Offset; o++ {
 		ch, ok := byOff[o]
 		if !ok {
-			c.violate("rejoin from (%d,%s) answered recovered=true at offset %d, but offset %d of that epoch was never broadcast by the broker (no delivery logged)", c.recSince, c.recEpoch, res.Offset, o)
-			return
+			return fmt.Sprintf("rejoin from (%d,%s) answered recovered=true at offset %d delivering %s, but offset %d of that epoch was never broadcast by the broker (no delivery logged)",
+				c.recSince, c.recEpoch, res.Offset, vfC22RenderPubs(c.recPubs), o)
 		}
 		if c.cs.admits(ch.Tags) {
 			want = append(want, ch)
@@ -740,19 +770,10 @@ func (c *vfC22Client) checkRecovered(res *protocol.SubscribeResult) {
 		}
 	}
 	if bad {
-		msg := fmt.Sprintf("rejoin from (%d,%s) answered recovered=true at offset %d delivered %s, but the admitted changes after the saved position are %s",
+		return fmt.Sprintf("rejoin from (%d,%s) answered recovered=true at offset %d delivered %s, but the admitted changes after the saved position are %s",
 			c.recSince, c.recEpoch, res.Offset, vfC22RenderPubs(c.recPubs), render(want))
-		z, e := c.mb.gapFlags()
-		if key := vfC22GapKey(z, e, c.epochMixed); key != "" && c.isKnown(key) {
-			c.out.known = append(c.out.known, key)
-			c.out.knownEx = msg
-			c.out.label("known:" + key)
-			return
-		} else if key != "" {
-			msg = "[" + key + "] " + msg
-		}
-		c.violate("%s", msg)
 	}
+	return ""
 }
 
 func vfC22GapKey(sinceZeroTrim, emptyGap, epochMixed bool) string {
@@ -786,7 +807,8 @@ func (c *vfC22Client) pump() {
 			c.pending = nil
 			if r.Error != nil {
 				c.tr("<- #%d error %d %s", p.id, r.Error.Code, r.Error.Message)
-				c.out.label(fmt.Sprintf("told:error_%d", r.Error.Code))
+				c.lastTold = fmt.Sprintf("error_%d", r.Error.Code)
+				c.out.label("told:" + c.lastTold)
 				c.lostSession(false)
 			} else if r.Subscribe != nil {
 				c.handleResult(p, r.Subscribe)
@@ -809,7 +831,8 @@ func (c *vfC22Client) pump() {
 		case r.Push != nil && r.Push.Channel == vfC22Ch && r.Push.Unsubscribe != nil:
 			code := r.Push.Unsubscribe.Code
 			c.tr("<- unsubscribe push code=%d", code)
-			c.out.label(fmt.Sprintf("told:unsubscribe_%d", code))
+			c.lastTold = fmt.Sprintf("unsubscribe_%d", code)
+			c.out.label("told:" + c.lastTold)
 			c.lostSession(code == UnsubscribeCodeInsufficient)
 		case r.Push != nil && r.Push.Disconnect != nil:
 			c.tr("<- disconnect push code=%d", r.Push.Disconnect.Code)
@@ -818,7 +841,8 @@ func (c *vfC22Client) pump() {
 	if closed, d := c.conn.T.Closed(); closed && !c.connDead {
 		c.connDead = true
 		c.tr("xx connection closed by server code=%d %s", d.Code, d.Reason)
-		c.out.label(fmt.Sprintf("told:disconnect_%d", d.Code))
+		c.lastTold = fmt.Sprintf("disconnect_%d", d.Code)
+		c.out.label("told:" + c.lastTold)
 		c.lostSession(true)
 	}
 	if c.pending != nil && !c.pending.parked && !c.connDead {
@@ -989,7 +1013,7 @@ func vfC22Run(t *testing.T, cs vfC22Case, out *vfC22Out, isKnown func(string) bo
 		// ---- traffic stops: let the client finish its handshake, then settle ---------------------------------
 		cl.tr("-- traffic stopped")
 		for round := 0; round < 3 && cl.viol == ""; round++ {
-			for i := 0; i < 60 && cl.viol == "" && !cl.gaveUp && !cl.stuck; i++ {
+			for i := 0; i < 60 && cl.viol == "" && !cl.gaveUp && !cl.stuck && cl.livelock == ""; i++ {
 				cl.release()
 				cl.pump()
 				if cl.phase == "live" {
@@ -1000,7 +1024,7 @@ func vfC22Run(t *testing.T, cs vfC22Case, out *vfC22Out, isKnown func(string) bo
 			time.Sleep(1500 * time.Millisecond)
 			vfSettle()
 			cl.pump()
-			if cl.phase == "live" || cl.gaveUp || cl.stuck {
+			if cl.phase == "live" || cl.gaveUp || cl.stuck || cl.livelock != "" {
 				break
 			}
 		}
@@ -1034,11 +1058,28 @@ func vfC22Run(t *testing.T, cs vfC22Case, out *vfC22Out, isKnown func(string) bo
 			label("stuck")
 			return fail("the client's request got neither a reply nor a disconnect: it can never reach the live phase and was not told anything")
 		}
+		if cl.livelock != "" && cl.phase != "live" {
+			msg := cl.livelock
+			z, e := mb.gapFlags()
+			if key := vfC22GapKey(z, e, cl.epochMixed); key != "" {
+				if isKnown(key) {
+					out.known = append(out.known, key)
+					out.knownEx = msg
+					label("known_finding_livelock")
+					return ""
+				}
+				msg = "[" + key + "] " + msg
+			}
+			return fail(msg)
+		}
 		if cl.phase != "live" {
 			if cl.gaveUp {
-				label("refused_gave_up")
+				label("refused_gave_up_last_told:" + cl.lastTold)
 			} else {
-				label("refused")
+				label("refused_last_told:" + cl.lastTold)
+			}
+			if os.Getenv("VF_C22_FAIL_REFUSED") != "" {
+				return fail("DEBUG: client not live at the end")
 			}
 			return ""
 		}
